@@ -37,6 +37,7 @@ def child_env(tier, seed):
 
 
 def run_worker(modname, cond, tier, seed):
+    modname = cond.get("module", modname)
     timeout = cond["timeout"]
     wall = timeout * 1.6 + 45
     t0 = time.time()
@@ -123,6 +124,14 @@ def main():
     conds = mod.conditions(tier)
     if only:
         conds = [c for c in conds if only in c["name"]]
+    elif prop != "SELFTEST" and not getattr(mod, "NO_ENGINE_SELFTEST", False):
+        # the engine repairs must hold in this very run before any verdict is believed
+        st = importlib.import_module("harness.selftest")
+        for c in st.conditions(tier):
+            c = dict(c)
+            c["module"] = "harness.selftest"
+            c["selftest"] = True
+            conds.append(c)
     # longest first so that the tail is short
     order = sorted(range(len(conds)), key=lambda k: -conds[k]["timeout"])
     if seed:
@@ -173,9 +182,13 @@ def main():
                     status = "counterexample could not be decoded"
                     engine_errors.append("%s: cannot decode counterexample: %s" % (cond["name"], r.get("message", "")[:500]))
                 else:
-                    ok, desc = run_replay(modname, cond["name"], args, tier, seed)
-                    if ok:
-                        path = write_replay_script(prop, modname, cond["name"], args)
+                    cmod = cond.get("module", modname)
+                    ok, desc = run_replay(cmod, cond["name"], args, tier, seed)
+                    if ok and cond.get("selftest"):
+                        status = "ENGINE SELF-TEST FAILED"
+                        engine_errors.append("%s: engine repair self-test refuted: %s" % (cond["name"], desc))
+                    elif ok:
+                        path = write_replay_script(prop, cmod, cond["name"], args)
                         status = "VIOLATION (replayed)"
                         violations.append((cond["name"], args, desc, path))
                     elif ok is None:
